@@ -20,6 +20,7 @@ def serialise(cs):
             d["exact"] = [e.short_name + "|" + e.reporter.short_name for e in c.exact_editions]
             d["variation"] = [e.short_name + "|" + e.reporter.short_name for e in c.variation_editions]
             d["guess"] = c.edition_guess.short_name if c.edition_guess else None
+            d["all"] = [e.short_name + "|" + e.reporter.short_name + "|" + str(e.start) for e in c.all_editions]
             d["year"] = c.year
         by_identity = isinstance(c, (IdCitation, UnknownCitation)) or (isinstance(c, CaseCitation) and c.groups.get("page") is None)
         if not by_identity:
